@@ -721,6 +721,10 @@ def gen_modes(rng, mode):
         c = base_case(rng, start, ts, nd=rng.random() < 0.8, form=rng.choice(["seq", "tuple"]))
     c["mode"] = mode
     c["detector"] = "CCD"
+    if mode == "calibration":
+        # the calibration reads the `pixel` bucket as simulated data: a plan that EMPTIES it (`pixel.update(None)`) makes the
+        # fitting code fail for want of data — a harness artefact, not a schedule that is "valid but rejected"
+        c["plan"] = [[op for op in step if not (op[0] == "set" and op[1] == "pixel" and op[2] is None)] for step in c["plan"]]
     c["prior"]["tokens"][3] = rng.randrange(1, 900)  # the detector holds pixel charge before the run
     for i, b in enumerate(BUCKETS):
         if c["prior"]["tokens"][i] is None and rng.random() < 0.5:
